@@ -77,6 +77,23 @@ func (o Op) String() string {
 			r += fmt.Sprintf("; s%d=u%d.SearchParams()", o.D, o.H)
 		}
 		return r
+	case "sp.append":
+		return fmt.Sprintf("p%d s%d.Append(%s,%s)", o.P, o.H, q(string(o.A)), q(string(o.B)))
+	case "sp.set":
+		return fmt.Sprintf("p%d s%d.Set(%s,%s)", o.P, o.H, q(string(o.A)), q(string(o.B)))
+	case "sp.delete":
+		return fmt.Sprintf("p%d s%d.Delete(%s)", o.P, o.H, q(string(o.A)))
+	case "sp.sort":
+		return fmt.Sprintf("p%d s%d.Sort()", o.P, o.H)
+	case "sp.sortabs":
+		return fmt.Sprintf("p%d s%d.SortAbsolute()", o.P, o.H)
+	case "sp.iter":
+		cb := []string{"no-op", "if name==" + q(string(o.A)) + " {value=" + q(string(o.B)) + "}", "name+=" + q(string(o.A)),
+			"reads s.Has(name), s.Get(name) of the same list", "reads s.String() of the same list", "reads Href() and Search() of the owning URL",
+			"calls Clone() on the owning URL", "resolves the value against the owning URL", "reads s.GetAll(name) of the same list"}
+		if o.W >= 0 && o.W < len(cb) {
+			return fmt.Sprintf("p%d s%d.Iterate(callback: %s)", o.P, o.H, cb[o.W])
+		}
 	case "sp.clone":
 		return fmt.Sprintf("p%d s%d=s%d.Clone()", o.P, o.D, o.H)
 	case "getsp":
